@@ -70,7 +70,9 @@ Step(e) ==
   CASE e.ev = "Begin" -> BeginState(e, e.newTrace)
     [] e.ev = "Captured" ->
          /\ ph' = [ph EXCEPT ![e.fan] = "Wait"]
-         /\ orig' = [orig EXCEPT ![e.fan] = [pwm |-> e.a[1], mode |-> IF cf.hasMode[e.fan] THEN e.a[2] ELSE -1]]
+         \* the fan's original state is what its registers hold when it is taken over (observed by the harness), not what the
+         \* controller says it captured (e.a) - a controller that misreads or rewrites the original mode must not be believed
+         /\ orig' = [orig EXCEPT ![e.fan] = [pwm |-> e.pwm, mode |-> IF cf.hasMode[e.fan] THEN e.mode ELSE -1]]
          /\ pwm' = [pwm EXCEPT ![e.fan] = e.pwm] /\ mode' = [mode EXCEPT ![e.fan] = e.mode]
          /\ Keep(<<cf, reg, mtx, ctx, proc, sigs, db, cnt, ana, faults, starts, discarded, had>>)
     [] e.ev = "WaitEnd" ->
